@@ -169,7 +169,9 @@ func propC14(c *ctx) error {
 	for _, cp := range []int{0, 0x41, 0x7f, 0x80, 0xe9, 0xff, 0x100, 0x7ff, 0x800, 0x4e2d, 0xd7ff, 0xe000, 0xfffd, 0xffff} {
 		bodies = append(bodies, fmt.Sprintf(`\u%04x`, cp), fmt.Sprintf(`\U%08x`, cp))
 	}
-	bodies = append(bodies, `\U0001f600`, `\U0010ffff`, `\a\b\f\n\r\t\v\\`, `\xe4\xb8\xad`, `\344\270\255`, `x\xc3\xa9y`, `\xf0\x9f\x98\x80`, `\xff\xfe`, `\377\376a`, `\xc3`, `é\xe9\u00e9`, `\x80\u0080`)
+	bodies = append(bodies, `\U0001f600`, `\U0010ffff`, `\a\b\f\n\r\t\v\\`, `\xe4\xb8\xad`, `\344\270\255`, `x\xc3\xa9y`, `\xf0\x9f\x98\x80`, `\xff\xfe`, `\377\376a`, `\xc3`, `é\xe9\u00e9`, `\x80\u0080`,
+		// an escaped double quote is the same character in both interpreted styles
+		`a\"b`, `\"`, `\"\"x`, `\\\"`, `He says \"ok\".`, `\"\n\"`)
 	for i := 0; i < c.n(60, 3000); i++ {
 		var sb strings.Builder
 		for k := 1 + r.n(5); k > 0; k-- {
